@@ -70,6 +70,7 @@ import MosaikProofs.Sched.CacheRef
 import MosaikProofs.Sched.PushRef
 import MosaikProofs.Sched.WFLive
 import MosaikModel.WF
+import MosaikProofs.Build.RunConfig
 namespace Mosaik.C03
 open Mosaik
 
@@ -426,5 +427,18 @@ example : ∃ s, ReachM cachedCfg s ∧ s.failed = none ∧ (step cachedCfg s (.
   rw [hs] at hall
   simp only [Option.map_some, Option.some.injEq, Bool.and_eq_true, beq_iff_eq, Option.isNone_iff_eq_none] at hall
   exact ⟨hall.1.1.1, hall.1.1.2, hall.1.2, hall.2⟩
+
+/-- **the cache path for every scenario without groups built by valid calls**: the static hypotheses `WFCfg` and `PullOk` are
+theorems about scenario building (`Build.run_config_dataflow_flat`); what remains are the complements of two recorded findings
+(`InitSorted`: initial data in time order; `ReachM`: reported output times do not go back) -/
+theorem begin_pulls_history_built {ops : List Build.Op} (hv : Build.Valid {} ops) (hf : Build.flatOps ops = true)
+    {orc : List Nat} {out : List SimCfg} (hc : cacheTriggeringAncestors (Build.build ops).sims orc = .ok out)
+    (until_ maxLoop : Nat) (lazy_ strict : Bool) (hi : InitSorted (Build.runCfg out until_ maxLoop lazy_ true strict))
+    {s s' : State} (hr : ReachM (Build.runCfg out until_ maxLoop lazy_ true strict) s) (hnf0 : s.failed = none) {p : Sid}
+    (h : step (Build.runCfg out until_ maxLoop lazy_ true strict) s (.deps p) = some s') (hnf : s'.failed = none) :
+    ∃ c inp0 m, s'.log = .begin p c (pullSpec (Build.runCfg out until_ maxLoop lazy_ true strict)
+      (fun q => histOf (Build.runCfg out until_ maxLoop lazy_ true strict) q s.log) p c inp0) m :: s.log :=
+  begin_pulls_history (Build.run_config_dataflow_flat hv hf hc until_ maxLoop lazy_ true strict).1 rfl hi
+    (Build.run_config_dataflow_flat hv hf hc until_ maxLoop lazy_ true strict).2.2.2 hr hnf0 h hnf
 
 end Mosaik.C03
